@@ -30,6 +30,10 @@ CLAIMED["C03"] = ("Close teardown is tied to a permission (ghost token) that onl
   "Not decided: the asynchronous-dial clause (readWriteLoop, the poller event loop that invokes the dial callback, and DialAsyncTimeout are not under contract; on this tree a refused non-blocking connect reports success first and a timed-out dial never calls back - observed by execution in round 0, described in DESIGN.md as F4, outside the obligations claimed here); open-before-close ordering relies on addConn's program order (onOpen before registration) plus the engine's Async queue (C19); Execute-after-close is C05. Assumed: close/open callbacks reach the connection only through public methods; udpConn.Close (UDP session teardown) trusted; mutual exclusion of sync.Mutex.",
   "DESIGN.md 4 C03")
 
+CLAIMED["C05"] = ("The job list is a monitor of the connection mutex with ghost counters (submitted, taken, batch base, drainer index, drainer-exists). Proved at every Unlock of Execute, MustExecute and of the drainer closure: a drainer exists iff the list is non-empty; only the submitter that makes the list non-empty creates one (hand-over obligation at the executor call: the closure's precondition holds where it is handed over); the drainer's own index equals the protected index in every section (thread-local knowledge tied to the monitor); every job it takes is jobList[next] with submission number == number of jobs taken so far (FIFO, no gap, no repeat: assert 'order' at each take); it retires exactly when it has consumed everything appended so far; index safety of every jobList access; Execute on a closed connection returns false and leaves the list untouched, otherwise appends exactly one entry and returns true; MustExecute always appends exactly one entry.",
+  "Assumed: the engine's executor (Engine.Execute, user-replaceable) runs the closure it is given exactly once (the built-in executors are C19's subject); sync.Mutex mutual exclusion; the job itself is user code reaching the connection only through public methods. The panic barrier is structural (the job call is the only statement of a literal whose deferred literal calls recover) and is inlined, not separately proved. 'HTTP handlers and WebSocket callbacks never overlap' follows only for callers that route through Execute (C10/C14).",
+  "DESIGN.md 4 C05")
+
 NA = {
  "C18": "termination of Stop/Shutdown and release of goroutines/descriptors for all histories is liveness + whole-process resource state; no contract within reach of a per-function deductive verifier decides it (DESIGN.md 4 C18)",
 }
